@@ -173,7 +173,13 @@ where
         self.transform_controller.handle_token(&mut token)?;
 
         if self.emission_enabled {
-            token.into_bytes(&mut |c| self.output_sink.handle_chunk(c))?;
+            token.into_bytes(&mut |c| {
+                // NOTE: a zero-length chunk tells the sink that the output has ended,
+                // so an empty piece of a token (e.g. an empty comment text) must not reach it.
+                if !c.is_empty() {
+                    self.output_sink.handle_chunk(c);
+                }
+            })?;
         }
         Ok(())
     }
@@ -199,7 +205,13 @@ where
         self.transform_controller.handle_token(&mut token)?;
 
         if self.emission_enabled {
-            token.into_bytes(&mut |c| self.output_sink.handle_chunk(c))?;
+            token.into_bytes(&mut |c| {
+                // NOTE: a zero-length chunk tells the sink that the output has ended,
+                // so an empty piece of a token (e.g. an empty comment text) must not reach it.
+                if !c.is_empty() {
+                    self.output_sink.handle_chunk(c);
+                }
+            })?;
         }
         Ok(())
     }
